@@ -32,6 +32,8 @@ CLAIMS["C15"] = ("The Lua scripts embedded in the Redis election are parsed by t
 
 CLAIMS["C20"] = ("Every path of RdbReplay.Replay is enumerated (RESTORE retry unrolled once): probe and DEL only for the first chunk with the probe's error tested; under ignore no write follows 'key exists', the key is remembered and later chunks consult the memo; under error a non-nil return precedes any write; under replace DEL precedes the expansion / REPLACE precedes the retry; both policy switches cover exactly the three policies; the bidirectional builder records and looks up its memo under the same key.", "3/C20")
 
+CLAIMS["C03"] = ("Type tables agree per parser (routing = payload consumption = expansion) and every value type is routed; DUMP framing order/endianness/size; CRC-64 table equals the Jones table computed in the checker; ziplist/intset/listpack integers are sign-extended per encoding width; ziplist ends at 255 only; on every successful path of Replay an expanded value with an expiry gets PEXPIRE and RESTORE carries the ttl; fan-out lane depends on the key only; all value bytes go through the tee into the payload; plain and bidirectional RESTORE choice agree; later chunks append. Value-level decoding of all encodings is not decided.", "3/C03")
+
 NOT_YET = "check not built yet in this revision (planned, see DESIGN.md section 3)"
 
 def main():
